@@ -13,7 +13,7 @@ from .gen import Rng
 
 TRACE_RE = re.compile(r" @trace=(.*)$")
 SORT_OPS = ("clear", "remove_fully", "rmtree")
-ENV_OPS = ("put", "append", "truncate", "del", "rmtree", "mkdir", "symlink", "cat", "stat", "dump", "fsize", "wait_until", "chmod", "mode")
+ENV_OPS = ("put", "append", "truncate", "del", "rmtree", "mkdir", "symlink", "cat", "stat", "dump", "fsize", "wait_until", "chmod", "mode", "hardlink")
 
 
 def direct_content_writes(events, op=""):
